@@ -34,7 +34,7 @@ CATEGORY = {
     "transits_0": ("transits", 0), "transits_1": ("transits", 1), "transits_3": ("transits", 3), "transits_1_nodepot": ("transits", 1),
     "elim_fo": ("elimination", "FO"), "elim_mm": ("elimination", "MM"), "elim_mix": ("elimination", "MIX-FO-MM"), "elim_zo": ("elimination", "ZO"),
     "bio_add": ("bioavailability", True), "bio_remove": ("bioavailability", False),
-    "metabolite": ("metabolite", True), "effect_cmt": ("effect", True),
+    "metabolite": ("metabolite", True), "metabolite_psc": ("metabolite", True), "effect_cmt": ("effect", True),
 }
 DEFAULT = {"transits": 0, "lagtime": False, "absorption": "FO"}
 COUPLED = {"absorption", "transits", "lagtime"}
@@ -42,6 +42,7 @@ UNDO = {"periph_add": "periph_remove", "lag_on": "lag_off", "bio_add": "bio_remo
         "elim_mm": "elim_fo", "elim_mix": "elim_fo", "elim_zo": "elim_fo"}
 
 
+TERMINAL = ("metabolite_psc",)  # the pre-systemic metabolite is examined as a request; the models it returns are not expanded
 PRUNE_KNOWN = True  # a state returned by a transition that reproduces a recorded known finding is not expanded
 
 
@@ -62,7 +63,7 @@ def alphabet(tier, depth):
 
     # metabolite and effect compartment: requested only on states that are at most one step from a start model (they take the
     # system out of the ADVAN library, which makes every later step expensive)
-    return list(mgraph.ops("structural")) + (["metabolite", "effect_cmt"] if depth <= 1 else [])
+    return list(mgraph.ops("structural")) + (["metabolite", "metabolite_psc", "effect_cmt"] if depth <= 1 else [])
 
 
 def depth_limit(tier):
@@ -187,6 +188,10 @@ def check_transition(hist, model, lab, m2, outcome, tier):
                 continue
             if cat == "transits" and d == "absorption" and dv in ("FO", "INST"):
                 continue  # the depot comes and goes with the transit chain
+            if lab == "metabolite_psc" and d == "bioavailability":
+                continue  # the pre-systemic fraction is modelled through the bioavailability of the dose
+            if lab == "metabolite_psc" and d == "absorption" and dv == "FO":
+                continue  # documented: "If a depot compartment is not present, one will be created"
             fails.append(f"frame: {lab} changed {d} from {before[d]} to {after[d]}")
         # a category that the request reset (or left alone) is not half there: every absorption-chain compartment of the
         # returned model still leads to the central compartment
